@@ -124,8 +124,22 @@ type Params struct {
 	Stalls bool
 }
 
+// sizes prints a list of write sizes, a long run of equal sizes as NxS.
+func sizes(l []int) string {
+	if len(l) > 8 {
+		same := true
+		for _, x := range l {
+			same = same && x == l[0]
+		}
+		if same {
+			return fmt.Sprintf("[%dx%d]", len(l), l[0])
+		}
+	}
+	return fmt.Sprint(l)
+}
+
 func (p Params) String() string {
-	s := fmt.Sprintf("cw=%v sw=%v rb=%d ctp=%s stp=%s nowait=%v n=%d seed=%d", p.CW, p.SW, p.RB, p.CTP, p.STP, p.NoWait, p.NSess, p.Seed)
+	s := fmt.Sprintf("cw=%s sw=%s rb=%d ctp=%s stp=%s nowait=%v n=%d seed=%d", sizes(p.CW), sizes(p.SW), p.RB, p.CTP, p.STP, p.NoWait, p.NSess, p.Seed)
 	if p.UDP {
 		s = fmt.Sprintf("udp mtu=%d lat=%v faults=%v dropK=%d/%s ", p.MTU, p.Latency, p.Faults, p.DropK, p.DropDir) + s
 	} else {
